@@ -1009,7 +1009,7 @@ def run(pid, tier):
                 "kinds": kinds, "programs_crashed": stats["crashed"], "programs_timed_out": stats["timeout"],
                 "programs_skipped_for_budget": stats.get("programs_skipped_for_budget", 0), "time_budget_s": BUDGET[tier],
                 "rejections_for_this_property": len(rel), "distinct_rejection_signatures": len(seen),
-                "small_scope_model": "CSDMC (%s): invariant %s + action property Immutable" % ("quick scope" if tier == "quick" else "full scope", INV[pid]),
+                "small_scope_model": "CSDMC (%s): invariant %s + action properties Immutable, ImagesAppendOnly, IterShrinks, DeadStaysDead" % ("quick scope" if tier == "quick" else "full scope", INV[pid]),
                 "exhaustive": False}
     coverage.update(extra)
     rc = V.finish()
